@@ -859,3 +859,49 @@ func isFreshError(v ssa.Value) bool {
 	}
 	return false
 }
+
+// isSuccessReturnPS: isSuccessReturn, refined by the branch the return sits on: a return whose error result
+// is a value v and whose block is dominated by the edge `v != nil` is an error return.
+func isSuccessReturnPS(in ssa.Instruction) bool {
+	if !isSuccessReturn(in, nil) {
+		return false
+	}
+	ret := in.(*ssa.Return)
+	fn := in.Parent()
+	idx := errorResultIndex(fn.Signature)
+	if idx < 0 || idx >= len(ret.Results) {
+		return true
+	}
+	v := resolveSpill(ret.Results[idx])
+	if isNilConst(v) {
+		return true
+	}
+	for _, b := range fn.Blocks {
+		if len(b.Instrs) == 0 {
+			continue
+		}
+		ifi, ok := b.Instrs[len(b.Instrs)-1].(*ssa.If)
+		if !ok {
+			continue
+		}
+		ct, ok := decodeIf(ifi)
+		if !ok || resolveSpill(ct.V) != v {
+			continue
+		}
+		k := -1
+		switch ct.TrueWhen {
+		case "nonnil":
+			k = 0
+		case "nil":
+			k = 1
+		}
+		if k < 0 {
+			continue
+		}
+		s := b.Succs[k]
+		if len(s.Preds) == 1 && s.Dominates(in.Block()) {
+			return false
+		}
+	}
+	return true
+}
